@@ -1433,6 +1433,20 @@ class PE:
             elif isinstance(t, ast.Attribute):
                 base = self.eval(t.value, env)
                 if isinstance(base, Obj):
+                    m = self.src.find_method(base.cls, "__delattr__")
+                    if m:
+                        self.apply(Bound(base, Closure(m, m.node, None, m.module, m.qname)), [t.attr], {})
+                    elif t.attr in base.attrs:
+                        del base.attrs[t.attr]
+                    else:
+                        raise PERaise("AttributeError", t.attr)
+                elif isinstance(base, Opaque):
+                    delattr(base, t.attr)
+                else:
+                    raise PEError("del of an attribute of an unsupported value")
+            elif isinstance(t, ast.Attribute):
+                base = self.eval(t.value, env)
+                if isinstance(base, Obj):
                     base.attrs.pop(t.attr, None)
 
     def x_FunctionDef(self, st, env):
